@@ -63,7 +63,7 @@ from simkit.world import (  # noqa: E402
 P = "C07"
 NS = 1_000_000_000
 SPIN_CAP = 2_500
-DELIVERY_CAP = 40_000
+DELIVERY_CAP = 25_000
 CREEP_WINDOW = 8_000
 CREEP_NS_PER_DELIVERY = 1
 
